@@ -481,7 +481,8 @@ def words(A, kind):
 
 
 def configs(A, driver):
-    kinds = list(BASE_KINDS) + (["size+sha512+blake2b"] if A <= 2 else [])
+    # the multi-hash kind makes snakeoil hash in helper threads (slow): budget 1 only in the simulated driver
+    kinds = list(BASE_KINDS) + (["size+sha512+blake2b"] if A <= (2 if driver == "real" else 1) else [])
     for kind in kinds:
         for pre in PRE_STATES:
             for n_uris in sorted({A + 1, A, max(1, A - 1)}):
@@ -513,17 +514,18 @@ def iter_cases(A, driver):
 def plan(tier, seed):
     tasks = []
     if tier == "quick":
-        for A, frac, nsl in ((1, 1.0, 1), (2, 1.0, 1), (3, 0.12, 2), (4, 0.014, 6)):
+        for A, frac, nsl in ((1, 1.0, 1), (2, 0.25, 2), (3, 0.06, 2), (4, 0.008, 6)):
             for i in range(nsl):
                 tasks.append({"task": "enum", "driver": "sim", "attempts": A, "slice": i, "nslices": nsl, "sample": frac})
-        for A, frac, nsl in ((1, 1.0, 1), (2, 0.04, 3), (3, 0.004, 2)):
+        # real bash is ~10 ms per fetcher run on an idle machine and far more under load: keep the slice small
+        for A, frac, nsl in ((1, 0.04, 1), (2, 0.003, 2), (3, 0.0004, 2)):
             for i in range(nsl):
                 tasks.append({"task": "enum", "driver": "real", "attempts": A, "slice": i, "nslices": nsl, "sample": frac})
     else:
-        for A, nsl in ((1, 1), (2, 1), (3, 6), (4, 48)):
+        for A, nsl in ((1, 1), (2, 2), (3, 8), (4, 48)):
             for i in range(nsl):
                 tasks.append({"task": "enum", "driver": "sim", "attempts": A, "slice": i, "nslices": nsl, "sample": 1.0})
-        for A, frac, nsl in ((1, 1.0, 1), (2, 1.0, 12), (3, 0.03, 8)):
+        for A, frac, nsl in ((1, 1.0, 4), (2, 0.1, 8), (3, 0.005, 8)):
             for i in range(nsl):
                 tasks.append({"task": "enum", "driver": "real", "attempts": A, "slice": i, "nslices": nsl, "sample": frac})
     return tasks
